@@ -8,19 +8,6 @@ Definition tails_ok (U1 : nat -> ext R -> R) : Prop :=
   (forall i, U1 i PInf = 0 /\ U1 i NInf = 0) /\
   (forall i x y, @xleb RNum x y = true -> (@xlt0 RNum y = true \/ @xlt0 RNum x = false) -> U1 i y <= U1 i x).
 
-Definition copula2_ok (cop : list (ext R) -> R) : Prop :=
-  (forall v, cop [Fin 0; v] = 0 /\ cop [v; Fin 0] = 0) /\
-  (forall u1 u2 v1 v2, @xleb RNum u1 u2 = true -> @xleb RNum v1 v2 = true ->
-     0 <= cop [u2; v2] - cop [u2; v1] - cop [u1; v2] + cop [u1; v1]) /\
-  (forall u : R, margin RNum cop [0%nat] 2 [Fin u] = u /\ margin RNum cop [1%nat] 2 [Fin u] = u).
-
-Definition copula3_ok (cop : list (ext R) -> R) : Prop :=
-  (forall u v, cop [Fin 0; u; v] = 0 /\ cop [u; Fin 0; v] = 0 /\ cop [u; v; Fin 0] = 0) /\
-  (forall u1 u2 v1 v2 w1 w2, @xleb RNum u1 u2 = true -> @xleb RNum v1 v2 = true -> @xleb RNum w1 w2 = true ->
-     0 <= cop [u2; v2; w2] - cop [u2; v2; w1] - cop [u2; v1; w2] + cop [u2; v1; w1]
-          - cop [u1; v2; w2] + cop [u1; v2; w1] + cop [u1; v1; w2] - cop [u1; v1; w1]) /\
-  (forall u : R, margin RNum cop [0%nat] 3 [Fin u] = u /\ margin RNum cop [1%nat] 3 [Fin u] = u /\ margin RNum cop [2%nat] 3 [Fin u] = u).
-
 Lemma xleb_ninf (x : ext R) : @xleb RNum NInf x = true. Proof. destruct x; reflexivity. Qed.
 Lemma xleb_pinf (x : ext R) : @xleb RNum x PInf = true. Proof. destruct x; reflexivity. Qed.
 Lemma xleb_fin (x y : R) : x <= y -> @xleb RNum (Fin x) (Fin y) = true. Proof. intros; simpl; apply Rleb_true; assumption. Qed.
@@ -41,17 +28,17 @@ Proof.
   - (* coordinate 1 straddles *)
     pose proof (Tmono 1%nat a2 b2 H2 (nostraddle_side _ _ S2)) as M2.
     destruct (Cm (U1 1%nat a2)) as [_ Ma]. destruct (Cm (U1 1%nat b2)) as [_ Mb]. cbn in Ma, Mb.
-    pose proof (Cinc (Fin (U1 0%nat b1)) PInf (Fin (U1 1%nat b2)) (Fin (U1 1%nat a2)) (xleb_pinf _) (xleb_fin _ _ M2)).
-    pose proof (Cinc NInf (Fin (U1 0%nat a1)) (Fin (U1 1%nat b2)) (Fin (U1 1%nat a2)) (xleb_ninf _) (xleb_fin _ _ M2)).
+    pose proof (Cinc (Fin (U1 0%nat b1)) PInf (Fin (U1 1%nat b2)) (Fin (U1 1%nat a2)) (xleb_pinf _) (xleb_fin _ _ M2) eq_refl).
+    pose proof (Cinc NInf (Fin (U1 0%nat a1)) (Fin (U1 1%nat b2)) (Fin (U1 1%nat a2)) (xleb_ninf _) (xleb_fin _ _ M2) eq_refl).
     cbn in *; lra.
   - pose proof (Tmono 0%nat a1 b1 H1 (nostraddle_side _ _ S1)) as M1.
     destruct (Cm (U1 0%nat a1)) as [Ma _]. destruct (Cm (U1 0%nat b1)) as [Mb _]. cbn in Ma, Mb.
-    pose proof (Cinc (Fin (U1 0%nat b1)) (Fin (U1 0%nat a1)) (Fin (U1 1%nat b2)) PInf (xleb_fin _ _ M1) (xleb_pinf _)).
-    pose proof (Cinc (Fin (U1 0%nat b1)) (Fin (U1 0%nat a1)) NInf (Fin (U1 1%nat a2)) (xleb_fin _ _ M1) (xleb_ninf _)).
+    pose proof (Cinc (Fin (U1 0%nat b1)) (Fin (U1 0%nat a1)) (Fin (U1 1%nat b2)) PInf (xleb_fin _ _ M1) (xleb_pinf _) eq_refl).
+    pose proof (Cinc (Fin (U1 0%nat b1)) (Fin (U1 0%nat a1)) NInf (Fin (U1 1%nat a2)) (xleb_fin _ _ M1) (xleb_ninf _) eq_refl).
     cbn in *; lra.
   - pose proof (Tmono 0%nat a1 b1 H1 (nostraddle_side _ _ S1)) as M1.
     pose proof (Tmono 1%nat a2 b2 H2 (nostraddle_side _ _ S2)) as M2.
-    pose proof (Cinc _ _ _ _ (xleb_fin _ _ M1) (xleb_fin _ _ M2)). cbn in *; lra.
+    pose proof (Cinc _ _ _ _ (xleb_fin _ _ M1) (xleb_fin _ _ M2) eq_refl). cbn in *; lra.
 Qed.
 
 Theorem nonneg_3d (U1 : nat -> ext R -> R) (cop : list (ext R) -> R) :
@@ -73,33 +60,33 @@ Proof.
     try (pose proof (xleb_fin _ _ (Tmono 0%nat a1 b1 H1 (nostraddle_side _ _ S1))) as M1; fold A1 B1 in M1);
     try (pose proof (xleb_fin _ _ (Tmono 1%nat a2 b2 H2 (nostraddle_side _ _ S2))) as M2; fold A2 B2 in M2);
     try (pose proof (xleb_fin _ _ (Tmono 2%nat a3 b3 H3 (nostraddle_side _ _ S3))) as M3; fold A3 B3 in M3).
-  all: try pose proof (Cinc _ _ _ _ _ _ LO1 LO2 LO3).
-  all: try pose proof (Cinc _ _ _ _ _ _ LO1 LO2 HI3).
-  all: try pose proof (Cinc _ _ _ _ _ _ LO1 LO2 M3).
-  all: try pose proof (Cinc _ _ _ _ _ _ LO1 HI2 LO3).
-  all: try pose proof (Cinc _ _ _ _ _ _ LO1 HI2 HI3).
-  all: try pose proof (Cinc _ _ _ _ _ _ LO1 HI2 M3).
-  all: try pose proof (Cinc _ _ _ _ _ _ LO1 M2 LO3).
-  all: try pose proof (Cinc _ _ _ _ _ _ LO1 M2 HI3).
-  all: try pose proof (Cinc _ _ _ _ _ _ LO1 M2 M3).
-  all: try pose proof (Cinc _ _ _ _ _ _ HI1 LO2 LO3).
-  all: try pose proof (Cinc _ _ _ _ _ _ HI1 LO2 HI3).
-  all: try pose proof (Cinc _ _ _ _ _ _ HI1 LO2 M3).
-  all: try pose proof (Cinc _ _ _ _ _ _ HI1 HI2 LO3).
-  all: try pose proof (Cinc _ _ _ _ _ _ HI1 HI2 HI3).
-  all: try pose proof (Cinc _ _ _ _ _ _ HI1 HI2 M3).
-  all: try pose proof (Cinc _ _ _ _ _ _ HI1 M2 LO3).
-  all: try pose proof (Cinc _ _ _ _ _ _ HI1 M2 HI3).
-  all: try pose proof (Cinc _ _ _ _ _ _ HI1 M2 M3).
-  all: try pose proof (Cinc _ _ _ _ _ _ M1 LO2 LO3).
-  all: try pose proof (Cinc _ _ _ _ _ _ M1 LO2 HI3).
-  all: try pose proof (Cinc _ _ _ _ _ _ M1 LO2 M3).
-  all: try pose proof (Cinc _ _ _ _ _ _ M1 HI2 LO3).
-  all: try pose proof (Cinc _ _ _ _ _ _ M1 HI2 HI3).
-  all: try pose proof (Cinc _ _ _ _ _ _ M1 HI2 M3).
-  all: try pose proof (Cinc _ _ _ _ _ _ M1 M2 LO3).
-  all: try pose proof (Cinc _ _ _ _ _ _ M1 M2 HI3).
-  all: try pose proof (Cinc _ _ _ _ _ _ M1 M2 M3).
+  all: try pose proof (Cinc _ _ _ _ _ _ LO1 LO2 LO3 eq_refl).
+  all: try pose proof (Cinc _ _ _ _ _ _ LO1 LO2 HI3 eq_refl).
+  all: try pose proof (Cinc _ _ _ _ _ _ LO1 LO2 M3 eq_refl).
+  all: try pose proof (Cinc _ _ _ _ _ _ LO1 HI2 LO3 eq_refl).
+  all: try pose proof (Cinc _ _ _ _ _ _ LO1 HI2 HI3 eq_refl).
+  all: try pose proof (Cinc _ _ _ _ _ _ LO1 HI2 M3 eq_refl).
+  all: try pose proof (Cinc _ _ _ _ _ _ LO1 M2 LO3 eq_refl).
+  all: try pose proof (Cinc _ _ _ _ _ _ LO1 M2 HI3 eq_refl).
+  all: try pose proof (Cinc _ _ _ _ _ _ LO1 M2 M3 eq_refl).
+  all: try pose proof (Cinc _ _ _ _ _ _ HI1 LO2 LO3 eq_refl).
+  all: try pose proof (Cinc _ _ _ _ _ _ HI1 LO2 HI3 eq_refl).
+  all: try pose proof (Cinc _ _ _ _ _ _ HI1 LO2 M3 eq_refl).
+  all: try pose proof (Cinc _ _ _ _ _ _ HI1 HI2 LO3 eq_refl).
+  all: try pose proof (Cinc _ _ _ _ _ _ HI1 HI2 HI3 eq_refl).
+  all: try pose proof (Cinc _ _ _ _ _ _ HI1 HI2 M3 eq_refl).
+  all: try pose proof (Cinc _ _ _ _ _ _ HI1 M2 LO3 eq_refl).
+  all: try pose proof (Cinc _ _ _ _ _ _ HI1 M2 HI3 eq_refl).
+  all: try pose proof (Cinc _ _ _ _ _ _ HI1 M2 M3 eq_refl).
+  all: try pose proof (Cinc _ _ _ _ _ _ M1 LO2 LO3 eq_refl).
+  all: try pose proof (Cinc _ _ _ _ _ _ M1 LO2 HI3 eq_refl).
+  all: try pose proof (Cinc _ _ _ _ _ _ M1 LO2 M3 eq_refl).
+  all: try pose proof (Cinc _ _ _ _ _ _ M1 HI2 LO3 eq_refl).
+  all: try pose proof (Cinc _ _ _ _ _ _ M1 HI2 HI3 eq_refl).
+  all: try pose proof (Cinc _ _ _ _ _ _ M1 HI2 M3 eq_refl).
+  all: try pose proof (Cinc _ _ _ _ _ _ M1 M2 LO3 eq_refl).
+  all: try pose proof (Cinc _ _ _ _ _ _ M1 M2 HI3 eq_refl).
+  all: try pose proof (Cinc _ _ _ _ _ _ M1 M2 M3 eq_refl).
   all: pose proof (proj1 (Cm A1)) as mA1; pose proof (proj1 (Cm B1)) as mB1;
        pose proof (proj1 (proj2 (Cm A2))) as mA2; pose proof (proj1 (proj2 (Cm B2))) as mB2;
        pose proof (proj2 (proj2 (Cm A3))) as mA3; pose proof (proj2 (proj2 (Cm B3))) as mB3.
